@@ -3,6 +3,7 @@ import warnings
 
 import convcases
 import convprop
+import gen
 import terms
 from terms import term_head, val_to_coq
 
@@ -146,6 +147,105 @@ def overlapping_union(term):
     return False
 
 
+
+def union_sites(term, x):
+    """(members, sub-value) for every untagged-union node of the type together with the part of the typed value x it types"""
+    from props.c01 import typed_ok
+    k = term[0]
+    try:
+        if k == 'seq':
+            for e in x:
+                yield from union_sites(term[2], e)
+        elif k == 'tuple':
+            for t, e in zip(term[1], x):
+                yield from union_sites(t, e)
+        elif k == 'dict':
+            for kk, vv in x.items():
+                yield from union_sites(term[1], kk)
+                yield from union_sites(term[2], vv)
+        elif k == 'struct':
+            for n, t in term[1]:
+                if n in x:
+                    yield from union_sites(t, x[n])
+        elif k == 'cond':
+            yield from union_sites(term[1], x)
+        elif k == 'class':
+            for f in term[1]['fields']:
+                if not f.get('kw_marker') and hasattr(x, f['name']):
+                    yield from union_sites(f['ty'], getattr(x, f['name']))
+            s = term[1].get('_parent_spec')
+            while s is not None:
+                for f in s['fields']:
+                    if not f.get('kw_marker') and hasattr(x, f['name']):
+                        yield from union_sites(f['ty'], getattr(x, f['name']))
+                s = s.get('_parent_spec')
+        elif k == 'tagged':
+            for _, vt in term[3]:
+                if vt[0] == 'class' and type(x) is vt[1].get('_cls'):
+                    yield from union_sites(vt, x)
+        elif k == 'union':
+            yield term[1], x
+            for m in term[1]:
+                if typed_ok(m, x) is None:
+                    yield from union_sites(m, x)
+                    break
+    except Exception:
+        return
+
+
+def dynamic_overlap(term, x):
+    """Does some untagged union inside the type really confuse its members on (a part of) the typed value x?  Either another
+    member reads the typed value itself as data before its own member does (that is how the serialiser picks a member), or the
+    serialised form written by the value's own member is read by an earlier member.  Decided by running the members'
+    converters, so that a failure on a union whose members do NOT overlap on this value is not blamed on overlap."""
+    import pane
+    from pane.convert import make_converter
+    from pane.converters import ParseInterrupt
+    from props.c01 import typed_ok
+    for ms, sx in union_sites(term, x):
+        own = next((i for i, m in enumerate(ms) if typed_ok(m, sx) is None), None)
+        if own is None:
+            return True              # the value is not typed for any member: nothing can be concluded, keep the coarse answer
+        convs = []
+        for m in ms:
+            try:
+                with warnings.catch_warnings():
+                    warnings.simplefilter('ignore')
+                    convs.append(make_converter(m[1]['_cls'] if m[0] == 'class' and '_cls' in m[1] else terms.build(m).py))
+            except Exception:
+                convs.append(None)
+        picked = None
+        for j, cv in enumerate(convs):
+            if cv is None:
+                continue
+            try:
+                cv.try_convert(sx)
+                picked = j
+                break
+            except ParseInterrupt:
+                continue
+            except Exception:
+                picked = j
+                break
+        if picked is not None and picked != own:
+            return True              # (a) another member reads the typed value as data first
+        try:
+            d_own = convs[own].into_data(sx)
+        except Exception:
+            continue
+        for j in range(own):
+            if convs[j] is None:
+                continue
+            try:
+                convs[j].try_convert(d_own)
+                return True          # (b) an earlier member reads what the value's own member writes
+            except ParseInterrupt:
+                pass
+            except Exception:
+                return True
+    return False
+
+
 def class_issues(term):
     """configuration facts of the dataclasses inside the type"""
     issues = set()
@@ -169,8 +269,6 @@ def class_issues(term):
                     issues.add('explicit-asymmetric-out_name')
                 elif sf.get('in_names') is not None:
                     issues.add('explicit-asymmetric-in_names')     # the user listed the complete set of input names
-                elif (opts.out_rename is not None) and sf.get('aliases') is not None:
-                    issues.add('D10:class-rename-with-field-aliases')
                 elif opts.out_rename is not None and (opts.in_rename is None or opts.out_rename not in opts.in_rename):
                     issues.add('explicit-asymmetric-rename')
                 else:
@@ -190,24 +288,25 @@ def class_issues(term):
                         if f.name == node[1] and f.out_name != node[1]:
                             issues.add('internal-tag-field-renamed')
         if node[0] == 'union':
+            # at any depth inside a member: the serialiser falls back to the runtime class of the member's value, which
+            # writes the variants without their wrapper
             for m in node[1]:
-                while m[0] == 'cond':
-                    m = m[1]
-                if m[0] == 'tagged' and m[2] != 'internal':
+                if any(n[0] == 'tagged' and n[2] != 'internal' for n in walk(m)):
                     issues.add('wrapped-tagged-inside-untagged-union')
     return issues
 
 
 CAUSES = ['internal-tag-with-tuple-out-variant', 'internal-tag-field-renamed', 'wrapped-tagged-inside-untagged-union',
-          'D9:tuple-out-with-kw-only-field', 'D10:class-rename-with-field-aliases', 'out_name-not-accepted']
+          'D9:tuple-out-with-kw-only-field', 'out_name-not-accepted']
 
 
-def known_cause(term, issues=None, wrapped=True):
+def known_cause(term, issues=None, wrapped=True, x=None):
+    """the recorded cause that explains a failure on this type (and, when the typed value x is given, on this value)"""
     issues = class_issues(term) if issues is None else issues
     for k in CAUSES:
         if k in issues and (wrapped or k != 'wrapped-tagged-inside-untagged-union'):
             return k.split(':')[-1]
-    if overlapping_union(term):
+    if overlapping_union(term) and (x is None or dynamic_overlap(term, x)):
         return 'overlapping-union'
     return None
 
@@ -231,6 +330,9 @@ def monitor_factory(into_items):
             except Exception as e:
                 if isinstance(e, TypeError) and "Can't convert type" in str(e) and c.term[0] in ('any', 'none', 'literal'):
                     out.append((f'C05:into_data:top-level-{c.term[0]}', f'into_data({x!r}, {T!r}) raised TypeError: {e}', None))
+                elif isinstance(e, AssertionError) and overlapping_union(c.term) and dynamic_overlap(c.term, x):
+                    out.append(('C05:into_data-raises:overlapping-union', f'into_data({x!r}, {T!r}) raised {type(e).__name__}: a union member that '
+                                'is not the value\'s own reads the typed value as data (the serialiser picks the member by a trial conversion)', None))
                 else:
                     out.append((f'C05:{head}:into_data:{type(e).__name__}', f'into_data({x!r}, {T!r}) raised {type(e).__name__}: {e}', None))
                 return out
@@ -242,7 +344,7 @@ def monitor_factory(into_items):
                              'explicit-asymmetric-in_names', 'tuple-out-with-noninit-field'}
             if skip:
                 return out
-            sig_extra = known_cause(c.term, issues)
+            sig_extra = known_cause(c.term, issues, x=x)
             try:
                 y = pane.from_data(d, T)
             except ConvertError as e:
@@ -272,7 +374,8 @@ def run(ctx, out):
                 'dataclass configurations: layouts (struct/tuple in/out), class rename styles, aliases, in_names, rename, out_name, '
                 'kw-only, excluded fields (skipped when the output form is not enabled on input). Non-trivial = non-leaf type.')
     into_items = []
-    cases = convprop.run(ctx, out, PROP, monitor_factory(into_items), cfg={'naming_density': 2.5, 'weights': {'class': 4.5, 'union': 1.5, 'tagged': 1.2, 'std': 1.0}})
+    cases = convprop.run(ctx, out, PROP, monitor_factory(into_items), cfg={'naming_density': 2.5, 'weights': {'class': 4.5, 'union': 1.5, 'tagged': 1.2, 'std': 1.0}},
+                         extra_cases=lambda rng: convprop.cases_from_pairs(gen.subclass_union_cases(rng), rng, 'subclass-union'))
     if any(f in ctx['failed_files'] for f in ('Model/Into.v', 'Run/AgreeInto.v')):
         out.oblige('corr_into', False, 'serialiser model does not build')
         return
@@ -282,7 +385,7 @@ def run(ctx, out):
                f'{len(bad)} mismatches over {nr}, {len(errs)} shard errors')
     for e in errs[:2]:
         out.violation('C05:corr_into:shard-error', 'serialiser correspondence shard failed: ' + e[:500], {'correspondence': 'corr_into', 'error': e[:1500]}, no_input=True)
-    if bad and not any(not v['no_input'] for v in out.violations):
+    if bad and not out.has_unlisted_input():
         c, x, obs, coq = bad[0]
         out.violation('C05:corr_into', f'serialiser model and pane disagree on {len(bad)} case(s), e.g. T={c.built.py!r}, x={x!r}, pane: {convcases.obs_repr(obs)}',
                       {'correspondence': 'corr_into', 'type': repr(c.built.py), 'value': repr(x), 'observed': convcases.obs_repr(obs)}, no_input=True)
